@@ -30,7 +30,7 @@ def FLOORS(tier):
          "observe-with-ancillas": 60 if q else 2000, "op:construct-from-raw": 200 if q else 6000, "op:observe-after-cancel_top": 60 if q else 2000, "observe-stale-with-ancillas": 15 if q else 500, "op:derive-then-constraint": 10 if q else 300}
     f.update({"untouched-object-checks": 3000 if q else 10 ** 5, "sibling:shares-mapping-dict": 100, "sibling:source-of-copy": 300,
               "caller-dict-scribbled": 60, "update:same-class-model:into-empty": 20, "update:same-class-model": 60, "update:pairs": 60,
-              "update:other-class-model": 60, "copy-by:times-one": 60, "update:argument-with-constraints": 20, "copy-by:neg-neg": 60, "ipow:exponent>=4:model-with-ancillas": 2})
+              "update:other-class-model": 60, "copy-by:times-one": 60, "continued-after-refused-edit": 100, "operand-with-user-mapping-and-stale-variable": 60, "update:argument-with-constraints": 20, "copy-by:neg-neg": 60, "ipow:exponent>=4:model-with-ancillas": 2})
     for t in TYPES:
         f["type:" + t] = 150 if q else 5000
     for o in OPS:
@@ -285,6 +285,18 @@ def case(ctx, rng, idx):
                     o = gen.rand_terms(rng, labs, maxd, lo=1, hi=3, raw=rng.random() < 0.3 and not deg2)
                 else:
                     o = gen.model_of(T, gen.rand_terms(rng, labs, maxd, lo=1, hi=3))
+                    if labelled and len(o) >= 2 and rng.random() < 0.4:
+                        # the other model has a history of its own: a user enumeration, and a variable whose terms all cancelled
+                        vs_ = list(o.mapping)
+                        pm_ = list(range(len(vs_)))
+                        rng.shuffle(pm_)
+                        o.set_mapping({v_: pm_[i_] for i_, v_ in enumerate(vs_)})
+                        try:
+                            o[("stale_only_in_operand",)] += 3
+                            o[("stale_only_in_operand",)] -= 3
+                        except KeyError:
+                            pass
+                        ctx.cat("operand-with-user-mapping-and-stale-variable")
                 desc += [which, dict(o) if isinstance(o, dict) else o]
                 if op == "iadd":
                     m += o
@@ -401,8 +413,16 @@ def case(ctx, rng, idx):
                 # documented: degree overflow / non-integer labels; a multi-step in-place product may be half done
                 ctx.cat("expected-keyerror")
                 hist.append(desc + ["KeyError"])
-                if op in ("imul", "ipow", "iadd", "isub", "update"):
-                    break
+                # whatever the refused edit left behind (the product may be half done), the bookkeeping still has to bound it,
+                # and the caller may go on using the object
+                ctx.count("inv-checks")
+                errs, bk = invariants(m, labelled)
+                if errs:
+                    ctx.violation("%s:after-refused-edit:%s" % (op, errs[0]), "after the refused %s: %s; bookkeeping %r terms %r" % (desc, errs, bk, dict(m)),
+                                  {"type": tname, "history": hist})
+                    return
+                ctx.cat("continued-after-refused-edit")
+                lineage |= anc_names(m)
                 continue
             hist.append(desc)
             ctx.violation("%s:raises-KeyError" % op, "%s raised %r on %s" % (op, e, tname), {"type": tname, "history": hist})
